@@ -212,8 +212,33 @@ def native_replay(pid, rec, scratch):
         finally:
             open(target, "w").write(src0)
         reproduced = all(v["failed"] for v in results.values())
-        doc = dict(property=pid, mode="native-eval", unit=rec["unit"].name, obligation=ob.name, model=model, test=body, native=results)
+        doc = dict(property=pid, mode="native-eval", unit=rec["unit"].name, obligation=ob.name, model=model, test=body, mount=mount,
+                   test_file=open(test_file).read(), native=results)
         json.dump(doc, open(path, "w"), indent=1)
         return dict(reproduced=reproduced, mode="native-eval", path=path, signature=dict(unit=rec["unit"].name, obligation=ob.name, assertions=[ob.name]),
                     detail="; ".join("%s: %s" % (k, "panicked" if v["failed"] else "passed") for k, v in results.items()))
     return dict(reproduced=False, mode="native-eval", path=path, detail="no native evaluation recipe for: %s" % ", ".join(c.get("obligation", "?") for c in cands))
+
+
+def replay_native_eval(doc, path):
+    """bin/check Cxx --replay FILE for engine-M counterexamples: re-run the stored native test on the current tree."""
+    scratch = core.Scratch([])
+    try:
+        test_file = os.path.join(scratch.dir, "kv_native_replay.rs")
+        open(test_file, "w").write(doc["test_file"])
+        target = os.path.join(scratch.dir, doc["mount"])
+        open(target, "a").write('\n#[cfg(test)] #[path = "%s"] mod kv_native_replay_mod;\n' % test_file)
+        p = subprocess.run(["cargo", "test", "--offline", "--lib", "--target-dir", os.path.join(scratch.dir, "td-native"), "kv_native_replay"],
+                           cwd=scratch.dir, env=core.ENV, stdout=subprocess.PIPE, stderr=subprocess.STDOUT, timeout=1800)
+        out = p.stdout.decode(errors="replace")
+        print(out[-1500:])
+        if "test result:" not in out:
+            print("replay: native test did not build")
+            return 2
+        if "panicked at" in out and "FAILED" in out:
+            print("VIOLATION property=%s replay=%s" % (doc["property"], path))
+            return 1
+        print("replay: counterexample no longer reproduces")
+        return 0
+    finally:
+        scratch.cleanup()
